@@ -30,6 +30,9 @@ func runC12(c *Ctx) {
 	r := c.R
 	// the stored object carries the name it was given
 	c18FSObjectPath(c, gd, "C12.name")
+	// … in the upload bucket
+	c18BucketWiring(c, gd, "C12.name")
+	cCloseBeforeSuccess(c, gd, gd.Func("cmd/telemetrygodev", "handleUpload$1"), "C12.write-gate")
 	h := gd.Func("cmd/telemetrygodev", "handleUpload$1")
 	val := gd.Func("cmd/telemetrygodev", "validate")
 
